@@ -956,6 +956,42 @@ void add_factory(std::vector<recipe_t>& corpus, const std::string& base)
     }
 }
 
+// a solver configured with non-default line-search objects: the configuration is part of the object
+void add_configured_solvers(std::vector<recipe_t>& corpus)
+{
+    for (const std::string id : {"lbfgs", "cgd-pr", "gd", "bfgs"})
+    {
+        corpus.push_back({"factory:solver", false,
+                          [=]()
+                          {
+                              auto object = solver_t::all().get(id);
+                              auto ls0    = lsearch0_t::all().get("constant");
+                              ls0->parameter("lsearch0::constant::t0") = 0.5;
+                              object->lsearch0(*ls0);
+                              object->lsearchk("backtrack");
+                              return factory_entry<solver_t>(
+                                  "factory:solver", "solver:" + id + ":lsearch0=constant(t0=0.5),lsearchk=backtrack", std::move(object),
+                                  &spans_config_only<solver_t>,
+                                  [](const solver_t& a, const solver_t& b)
+                                  {
+                                      if (a.lsearch0().type_id() != b.lsearch0().type_id() ||
+                                          repr(a.lsearch0().parameters()) != repr(b.lsearch0().parameters()))
+                                      {
+                                          return "configured-line-search-lost|lsearch0 " + a.lsearch0().type_id() + " read back as " +
+                                                 b.lsearch0().type_id();
+                                      }
+                                      if (a.lsearchk().type_id() != b.lsearchk().type_id() ||
+                                          repr(a.lsearchk().parameters()) != repr(b.lsearchk().parameters()))
+                                      {
+                                          return "configured-line-search-lost|lsearchk " + a.lsearchk().type_id() + " read back as " +
+                                                 b.lsearchk().type_id();
+                                      }
+                                      return std::string();
+                                  });
+                          }});
+    }
+}
+
 rwlearner_t fitted_wlearner(const std::string& id, const int dkind, const int variant)
 {
     const auto& d = data(dkind);
@@ -1283,6 +1319,7 @@ corpus_t make_corpus(const args_t& args)
 
     // factory objects: default and modified configuration
     add_factory<solver_t>(corpus, "solver");
+    add_configured_solvers(corpus);
     add_factory<loss_t>(corpus, "loss");
     add_factory<splitter_t>(corpus, "splitter");
     add_factory<tuner_t>(corpus, "tuner");
